@@ -28,6 +28,22 @@ SI = {-24: "YOCTO", -21: "ZEPTO", -18: "ATTO", -15: "FEMTO", -12: "PICO", -9: "N
       15: "PETA", 18: "EXA", 21: "ZETTA", 24: "YOTTA"}
 
 
+import enum as _enum
+
+
+class _StrEnum(str, _enum.Enum):          # string-valued enum that is also a str: exported as its VALUE
+    TYPICAL = "tt"
+
+
+class _PlainEnum(_enum.Enum):
+    FAST = "ff"
+
+
+class _LoudStr(str):                      # a str subclass with its own __str__: exported as the string it IS
+    def __str__(self):
+        return "LOUD:" + str.__str__(self).upper()
+
+
 def values(tier, seed):
     import hdl21 as h
     from hdl21.prefix import Prefix
@@ -36,7 +52,8 @@ def values(tier, seed):
             Decimal("1.50"), Decimal("1E+3"), Decimal("0.000000000000000000000000000001"),
             Decimal("12345678901234567890.1234567890123456789"), Decimal("-7.000"),
             "w/5", "2*x", "", "1.5", "1e-9", "1E-9", "2.5E6", "-7E+3", "1_0", ".5", "5.", "+3", " 3 ", "nan", "inf", "abc def",
-            "0x10", str(Decimal("1E-9")), str(Decimal("12E+7")), h.Literal("a+b"), h.Literal("")]
+            "0x10", str(Decimal("1E-9")), str(Decimal("12E+7")), h.Literal("a+b"), h.Literal(""),
+            _StrEnum.TYPICAL, _PlainEnum.FAST, _LoudStr("quiet")]
     for p in Prefix:
         # (1000 / 0.001 / 1: the same values written with neighbouring prefixes - equal numbers, different digits)
         for m in ("1", "1.50", "-0.000123", "12345678901234567890123456789012345678901", "3E+2", "1000", "0.001",
@@ -59,10 +76,10 @@ def expected_param(v):
     """specification of the exported ParamValue for an already-converted parameter value -> (kind, payload)"""
     import hdl21 as h
     from enum import Enum
-    if isinstance(v, str):
-        return ("literal", v)
     if isinstance(v, Enum):
         return ("literal", v.value)
+    if isinstance(v, str):
+        return ("literal", str.__str__(v))
     if isinstance(v, h.Literal):
         return ("literal", v.text)
     if isinstance(v, h.Prefixed):
@@ -136,6 +153,8 @@ def cases(tier, seed):
         yield ("scalar", k, v)
     for k in range(3):
         yield ("pulse-like-names", k, None)
+    for k, name in enumerate(IDEAL):
+        yield ("explicit-none", k, name)
 
 
 def check_case(case):
@@ -145,6 +164,8 @@ def check_case(case):
     if kind == "scalar":
         if isinstance(v, (h.Prefixed, h.Literal)):
             return None if h.scalar.to_scalar(v) is v else ("scalar.identity", f"to_scalar changed {v!r}", w)
+        if isinstance(v, _enum.Enum) and not isinstance(v, str):
+            return None       # scalar conversion is defined on numbers and strings only
         try:
             r = h.scalar.to_scalar(v)
         except Exception as e:
@@ -170,6 +191,31 @@ def check_case(case):
         want = [Fraction(v)] if not isinstance(v, float) else [Fraction(v), Fraction(Decimal(repr(v)))]
         if got not in want:
             return ("scalar.number-value", f"to_scalar({v!r}) == {r!r} (value {got}), expected {want[-1]}", w)
+        return None
+    if kind == "explicit-none":
+        # a parameter explicitly given as None is omitted from the export, whatever its declared default
+        prim = getattr(h, v)
+        vname, mapping = IDEAL[v]
+        for pn, vn in mapping.items():
+            try:
+                call = prim(**{pn: None})
+            except Exception:
+                continue                  # this parameter does not accept None
+            if getattr(call.params, pn) is not None:
+                return ("ideal.explicit-none-replaced", f"{v}({pn}=None) holds {getattr(call.params, pn)!r}: an explicit None "
+                                                        f"was replaced (it must reach the exporter and be omitted)", w)
+            m = h.Module(name="PNone")
+            sigs = {p.name: h.Signal(name="s_" + p.name) for p in call.prim.port_list}
+            for s_ in sigs.values():
+                m.add(s_)
+            m.i = call(**sigs)
+            try:
+                pkg = h.to_proto(m)
+            except Exception as e:
+                return (f"ideal.raises.{type(e).__name__}", f"{v}({pn}=None) not exported: {str(e)[:100]}", w)
+            got = [p.name for p in pkg.modules[-1].instances[0].parameters]
+            if vn in got:
+                return ("ideal.none-not-omitted", f"{v}({pn}=None) exported parameter {vn}", w)
         return None
     if kind == "pulse-like-names":
         # the ideal pulse source's renaming (delay->td, ...) applies to that primitive only: any other instance keeps
